@@ -1510,6 +1510,14 @@ class Interp:
         # 2. MIR bodies
         target = self.resolve_callee(callee, args, fr)
         if target is None:
+            if self.hooks:
+                # trait methods of a generic parameter (`<H as Host>::now`) have no body of their own: a driver hook may stand in
+                nm = re.sub(r'::<.*$', '', callee)
+                h = self.hooks.get(split_path(nm)[-1])
+                if h is not None:
+                    k = split_path(nm)[-1]
+                    self.stubs_used[k] = self.stubs_used.get(k, 0) + 1
+                    return h(self, args)
             raise Unsupported('no model and no MIR for callee %s' % callee[:160])
         mir, name, info = target
         body = mir.get(name)
